@@ -101,7 +101,7 @@ func vh_CL() {
 	vCover("advanced")
 	// the new commit index names an entry of the current term replicated on a majority of voters
 	c := vConcretize(post.commit-pre.firstIndex, pre.logLen)
-	vAssert(pre.terms[c] == pre.term, "C01|C04|C07.commit-only-current-term-entries")
+	vAssert(pre.terms[c] == pre.term, "C01|C03|C04|C07.commit-only-current-term-entries")
 	nv := vRefVoters(r.configuration, ids)
 	cnt := 0
 	if _, ok := r.configuration.Members["n1"]; ok && r.configuration.IsVoter["n1"] {
@@ -118,7 +118,7 @@ func vh_CL() {
 	}
 	vTagInt("voters", nv)
 	vTagBool("selfVoter", selfVoter)
-	vAssert(2*have > nv, "C01|C04|C09.commit-needs-majority-of-voters")
+	vAssert(2*have > nv, "C01|C03|C04|C07|C09.commit-needs-majority-of-voters")
 	vCoverIf(nv >= 3, "three-or-more-voters")
 }
 
@@ -131,7 +131,7 @@ func vh_Quorum() {
 	vAssume(count <= 6)
 	got := n.r.hasQuorum(count)
 	nv := vRefVoters(n.r.configuration, ids)
-	vAssert(got == (2*count > nv), "C02|C04|C09.hasQuorum-is-strict-majority-of-voters")
+	vAssert(got == (2*count > nv), "C01|C02|C04|C05|C07|C09.hasQuorum-is-strict-majority-of-voters")
 	vTagInt("voters", nv)
 	vCoverIf(got, "quorum")
 	vCoverIf(!got, "no-quorum")
